@@ -39,24 +39,35 @@ if not recheck:
     meta['ran'].append('scratch worktree %s: git apply; make; ./runtests; demo/run.sh (rc %d with change, %d without)' % (wt, d1.returncode, d0.returncode))
 # 2. our checks against /repo with the change applied (undone straight afterwards)
 res = {}
+# default: patch applied to /repo itself and undone afterwards.  VERIF_SEED_COPY=1 (used while a long background run is reading /repo): the
+# same patch is applied to a scratch copy of /repo's working tree and the checks are pointed at it (VERIF_REPO)
+copy = os.environ.get('VERIF_SEED_COPY') == '1'
+repo = '/repo'
+if copy:
+    repo = '/var/tmp/seedrepo-%s' % sid
+    shutil.rmtree(repo, ignore_errors=True)
+    sh('rsync -a --exclude .git --exclude "*.o" /repo/ %s/' % repo)
 st = sh('git -C /repo status --porcelain').stdout.strip()
 assert st == '', '/repo not clean: ' + st
 try:
-    a = sh('git -C /repo apply %s' % patch)
+    a = sh('git apply %s' % patch, cwd=repo) if copy else sh('git -C /repo apply %s' % patch)
     assert a.returncode == 0, a.stderr
     for p in props:
         t0 = time.time()
-        r = sh('VERIF_SCRATCH_EVIDENCE=1 python3 /verif/run.py --property %s --tier quick' % p, cwd='/verif')
+        r = sh('%sVERIF_SCRATCH_EVIDENCE=1 python3 /verif/run.py --property %s --tier quick' % ('VERIF_REPO=%s ' % repo if copy else '', p), cwd='/verif')
         viol = [l for l in r.stdout.split('\n') if l.startswith('VIOLATION')]
         res[p] = {'exit': r.returncode, 'violations': len(viol), 'first': viol[:3], 'wall_s': round(time.time() - t0), 'summary': r.stdout.strip().split('\n')[-1]}
         # which instances failed
         fails = [l.split()[0] for l in r.stderr.split('\n') if ' FAIL ' in l]
         res[p]['failing_instances'] = fails[:12]
 finally:
-    sh('git -C /repo checkout -- .')
+    if copy:
+        shutil.rmtree(repo, ignore_errors=True)
+    else:
+        sh('git -C /repo checkout -- .')
 meta['checks'] = res
 meta['detected'] = any(v['exit'] == 1 for v in res.values())
-meta['ran'].append('git -C /repo apply patch.diff; python3 run.py --property P --tier quick; git -C /repo checkout -- .')
+meta['ran'].append('scratch copy of /repo + git apply patch.diff; VERIF_REPO=<copy> python3 run.py --property P --tier quick; copy removed' if copy else 'git -C /repo apply patch.diff; python3 run.py --property P --tier quick; git -C /repo checkout -- .')
 notes = os.path.join(dst, 'notes.md')
 if os.path.exists(notes):
     txt = open(notes).read()
